@@ -114,7 +114,9 @@ func GenerateFingerprint(fn *ssa.Function, policy ir.LiteralPolicy, strictMode b
 	line := 0
 	filename := ""
 	if fn.Prog != nil && fn.Prog.Fset != nil {
-		p := fn.Prog.Fset.Position(fn.Pos())
+		// The physical position: //line directives (generated code) must not re-attribute a
+		// function to a file that is not the one being analysed.
+		p := fn.Prog.Fset.PositionFor(fn.Pos(), false)
 		line = p.Line
 		filename = p.Filename
 	}
